@@ -7,7 +7,6 @@
 #![allow(clippy::type_repetition_in_bounds)]
 
 use std::cmp::Ordering;
-use std::f64::consts::PI;
 use std::fmt::Write;
 use std::ops::Mul;
 
@@ -125,11 +124,12 @@ where
     /// neighbouring cells ensures there are no intersections of when tiling space.
     ///
     fn check_intersection(&self) -> bool {
-        let periodic_range = match (self.cell.a() / self.cell.b(), self.cell.angle()) {
-            (p, a) if 0.5 < p && p < 2. && f64::abs(a - PI / 2.) < 0.2 => 1,
-            (p, a) if 0.3 < p && p < 3. && f64::abs(a - PI / 2.) < 0.5 => 2,
-            _ => 3,
-        };
+        // A shape can only intersect the images which have their centre within two enclosing radii.
+        // The fractional coordinates of all the shapes lie within a single cell, so the number of
+        // neighbouring cells to search in each direction is found from the distance between
+        // opposite edges of the cell.
+        let cell_height = f64::min(self.cell.a(), self.cell.b()) * self.cell.angle().sin();
+        let periodic_range = (2. * self.shape.enclosing_radius() / cell_height).ceil() as i64;
         // Compare within the current cell
         for (index, shape1) in self
             .cartesian_positions()
@@ -148,16 +148,20 @@ where
         }
 
         let radius_sq = self.shape.enclosing_radius().mul(2.).powi(2);
-        // Compare in periodic cells
-        for transform1 in self.cartesian_positions() {
-            let shape1 = self.shape.transform(&transform1);
-            for position in self.relative_positions() {
-                for transform2 in self.cell.periodic_images(position, periodic_range, false) {
-                    let distance = (transform1.position() - transform2.position()).norm_squared();
-                    if distance <= radius_sq {
-                        let shape2 = self.shape.transform(&transform2);
-                        if shape1.intersects(&shape2) {
-                            return true;
+        // Compare in periodic cells. The nearest images are the most likely to intersect, so these
+        // are checked before searching the complete range, which can be large for a small cell.
+        for shells in std::iter::once(1).chain(Some(periodic_range).filter(|&r| r > 1)) {
+            for transform1 in self.cartesian_positions() {
+                let shape1 = self.shape.transform(&transform1);
+                for position in self.relative_positions() {
+                    for transform2 in self.cell.periodic_images(position, shells, false) {
+                        let distance =
+                            (transform1.position() - transform2.position()).norm_squared();
+                        if distance <= radius_sq {
+                            let shape2 = self.shape.transform(&transform2);
+                            if shape1.intersects(&shape2) {
+                                return true;
+                            }
                         }
                     }
                 }
